@@ -293,6 +293,9 @@ def syntax_ok(txt, tag):
     return rc == 0, "\n".join(errs[:4])[:1200]
 
 
+ERROR_LINES = {}
+
+
 def build_and_run(txt, tag):
     """returns (stdout or None, error text)"""
     p = write(tag + ".cxx", txt)
@@ -305,6 +308,9 @@ def build_and_run(txt, tag):
     rc, so, se = run(cmd, timeout=1800)
     if rc != 0:
         errs = [l for l in se.splitlines() if "error" in l or "undefined" in l]
+        # lines of this TU mentioned by the diagnostics (used to locate the offending programs of a batch)
+        import re
+        ERROR_LINES[tag] = sorted(set(int(m) for m in re.findall(re.escape(os.path.basename(p)) + r":(\d+):", se)))
         return None, "\n".join(errs[:6])[:2000]
     rc, so, se = run([exe], timeout=300)
     if rc != 0:
@@ -789,8 +795,26 @@ def run_positive_batch(batch):
     body.append("int main(){\n" + "\n".join("  p%d();" % i for i in range(len(progs))) + "\n  return 0;\n}\n")
     out, err = build_and_run("\n".join(body), tag)
     if out is None:
-        # locate the offending programs one by one
-        return [check_positive(p) for p in progs]
+        # locate the offending programs through the line numbers of the diagnostics, check (a few of)
+        # them alone and evaluate the others in a batch without them
+        starts, n = [], 0
+        for b in body[:-1]:
+            starts.append(n + 1)
+            n += b.count("\n") + 1
+        bad = set()
+        for ln in ERROR_LINES.get(tag, []):
+            k = max(i for i, st0 in enumerate(starts) if st0 <= ln) - 1  # body[0] is the preamble
+            if 0 <= k < len(progs):
+                bad.add(k)
+        if not bad or len(bad) == len(progs) or tag.count("_r") >= 3:
+            return [check_positive(p) for p in progs]
+        res = {}
+        for j, k in enumerate(sorted(bad)):
+            res[k] = check_positive(progs[k]) if j < 3 else None
+        good = [k for k in range(len(progs)) if k not in bad]
+        for k, r in zip(good, run_positive_batch(([progs[k] for k in good], tag + "_r"))):
+            res[k] = r
+        return [res[k] for k in range(len(progs))]
     lines = {l.split()[1]: l.split()[2:10] for l in out.splitlines() if l.startswith("P ")}
     return [judge_positive_line(p, lines["p%d" % i]) for i, p in enumerate(progs)]
 
